@@ -35,7 +35,8 @@ OneArg == LexAll(<<Query>>)
 Split == LexAll(FullSplit(Query))
 (* the named deviation: some blank-separated word that follows FROM (or a root-separating comma) contains a token-ending character *)
 Breakers == {",", "(", ")", "{", "}", "=", "!", "<", ">", "~", "'", "\"", "`"}
-WordHasBreaker(wd) == \E i \in 1 .. Len(wd) : wd[i] \in Breakers
+(* (a comma that ends the word is not one: it separates the root from the next one, as in the one-argument form) *)
+WordHasBreaker(wd) == \E i \in 1 .. Len(wd) : wd[i] \in Breakers /\ ~(i = Len(wd) /\ wd[i] = ",")
 RootWordDeviation == LET ws == FullSplit(Query) IN
    \E i \in 1 .. Len(ws) - 1 : (LowerSeq(ws[i]) = <<"f","r","o","m">> \/ (ws[i] # <<>> /\ ws[i][Len(ws[i])] = ","))
                                /\ WordHasBreaker(ws[i + 1])
